@@ -12,6 +12,7 @@ The `run` answer is the model's observation; after every op the Spec is consulte
 answer for that op is replaced by `!spec/<work>` and the line stops there, so that a disagreement
 between the algorithm and the property is visible as a Go≠Lean line. -/
 import BV.C02.Model
+import BV.Generated.C02
 namespace BV.C02.Driver
 open BV.C02
 
@@ -59,9 +60,14 @@ inductive DOp where
   | restart
 deriving Inhabited
 
+/-- the orphan-pool bound is an internal tuning constant of btcd: it is read from the compiled tree
+(regenerated facts) on every run, the driver is parametric in it -/
+def orphanBound : Nat := BV.Generated.C02.maxOrphanBlocks.toNat
+
 def stepD (s : State) : DOp → State × Res
+  | .op (.block b) => processBlockB orphanBound false s b
   | .op o => step s o
-  | .fast b => processBlockFast s b
+  | .fast b => processBlockB orphanBound true s b
   | .restart => (restart s, .ok)
 
 /-- op tokens: b<id> ProcessBlock, n<id> ProcessBlock with BFNoPoWCheck (same effect on valid PoW),
@@ -111,9 +117,10 @@ def heightOf (s : State) (h : Hash) : Nat :=
 def observe (s : State) (r : Res) (ids : List Hash) (newNotes : List Note) : String :=
   let chain := String.intercalate "." (s.best.reverse.map toString)
   let main := String.join (ids.map (fun i => if s.best.contains i then "1" else "0"))
+  -- per block, at the level of the public API: not indexed / header only / data stored, + known invalid
   let sts := String.intercalate "." (ids.map (fun i =>
     match lookup s.idx i with
-    | some _ => hexStr (s.status i).toByte
+    | some _ => (if (s.status i).data then "d" else "h") ++ (if (s.status i).knownInvalid then "i" else "")
     | none => "-"))
   let tips := (chainTips s).foldl (fun acc t => insertSorted t acc) []
   let tipsS := String.intercalate "," (tips.map (fun t =>
